@@ -39,7 +39,7 @@ func init() {
 		},
 		Real:       []string{"seehuhn.de/go/pdf DecodeStream, GetFilters, MakeFilter, all filters and internal codecs incl. JPEG and JBIG2 decoders (working tree)"},
 		Stub:       []string{"Getter (in-memory object table incl. cycles)", "source delivery (simio)", "memory budget argument", "consumer (early close)"},
-		Quick:      core.Budget{Runs: 120000, Secs: 150},
+		Quick:      core.Budget{Runs: 160000, Secs: 150},
 		Thorough:   core.Budget{Runs: 5000000, Secs: 900},
 		Run:        Run,
 		Corners:    corners,
@@ -201,7 +201,47 @@ func Run(e *core.Env) {
 		parms = append(parms, nil)
 		baseDesc = "jpeg"
 	case 2: // bombs
-		switch t.Draw("bomb", 4) {
+		switch t.Draw("bomb", 5) {
+		case 4: // nested: zeros compressed two or three times, any decoder on top
+			depth := 2 + t.Draw("bomb.depth", 2)
+			mib := tape.Pick(t, "bomb.mib", 1, 4, 12, 24, 48)
+			key := fmt.Sprint(mib)
+			var stages []bool
+			for i := 0; i < depth; i++ {
+				lzw := t.Bool("bomb.lzw", 1, 4)
+				stages = append(stages, lzw)
+				key += fmt.Sprint(lzw)
+			}
+			data, cached := nestedCache[key]
+			if !cached {
+				data = make([]byte, mib<<20)
+				for _, lzw := range stages {
+					var buf sinkBuf
+					var enc io.WriteCloser
+					if lzw {
+						enc, _ = pdf.FilterLZW{}.Encode(pdf.V1_7, &buf)
+					} else {
+						enc, _ = pdf.FilterFlate{}.Encode(pdf.V1_7, &buf)
+					}
+					enc.Write(data)
+					enc.Close()
+					data = append([]byte(nil), buf.Bytes()...)
+				}
+				nestedCache[key] = data
+			}
+			data = append([]byte(nil), data...)
+			for _, lzw := range stages {
+				if lzw {
+					names = append([]pdf.Name{"LZWDecode"}, names...)
+				} else {
+					names = append([]pdf.Name{"FlateDecode"}, names...)
+				}
+				parms = append(parms, nil)
+			}
+			body = data
+			names = append(names, tape.Pick(t, "bomb.top", pdf.Name("JBIG2Decode"), "DCTDecode", "CCITTFaxDecode", "RunLengthDecode", "ASCIIHexDecode", "ASCII85Decode", "LZWDecode", "FlateDecode"))
+			parms = append(parms, nil)
+			baseDesc = fmt.Sprintf("nested bomb depth %d", depth)
 		case 0: // highly compressible flate
 			var buf sinkBuf
 			enc, _ := pdf.FilterFlate{}.Encode(pdf.V1_7, &buf)
@@ -374,8 +414,17 @@ func Run(e *core.Env) {
 	attrs := map[string]string{}
 	_ = chainKey
 
+	doCanary := t.Bool("canary", 1, 8)
 	work := func() {
 		decodeAndCheck(e, g, dict, body, globals, names, parms, direct, closeAt, dsched, attrs)
+		// the decoders share a pool of zlib readers: after this run - however
+		// it ended - two Flate streams that are open at the same time must
+		// still be independent
+		if !e.Failed() && (len(names) >= 2 || doCanary) {
+			if err := core.FlateCanary(); err != nil {
+				e.Fail("pool-corrupted", map[string]string{}, "after this stream was decoded (or failed to decode) and closed, two Flate streams open at the same time interfere: %v (dict %s)", err, gen.Show(dict))
+			}
+		}
 	}
 	if hasDCT || t.Bool("bubble", 1, 20) {
 		e.Probe("ran in synctest bubble")
@@ -386,6 +435,9 @@ func Run(e *core.Env) {
 		work()
 	}
 }
+
+// nestedCache holds the (deterministic) multiply compressed blobs of zeros.
+var nestedCache = map[string][]byte{}
 
 func chainKey(names []pdf.Name) string {
 	set := map[string]bool{}
@@ -418,6 +470,41 @@ func decodeAndCheck(e *core.Env, g *getter, dict pdf.Dict, body, globals []byte,
 	if budgetBytes > 264<<20 {
 		budgetBytes = 264 << 20
 	}
+	drained := 0
+	// the allocation proxy covers every way out of this function, including
+	// decoders that do all their work while the chain is being built
+	defer func() {
+		if e.Failed() {
+			return
+		}
+		// Simulated time: the instrumentation overlay counts one tick per function
+		// entry and loop iteration inside the decoder packages.  Stages before the
+		// last one must not expand (ASCIIHex, ASCII85), otherwise the last stage
+		// legitimately works on an intermediate stream that is neither the input
+		// nor the output.
+		if eff, ok := effectiveNames(g, dict, names, direct); ok && core.WorkActive() && workQualifies(eff) {
+			names := eff
+			ticks := core.WorkNow() - work0
+			in := int64(len(body) + len(globals))
+			e.Probe("work bound evaluated")
+			calib(ticks, in, int64(drained), budgetBytes, names, closeAt >= 0, drained > 24<<20)
+			bound := workBound(names[len(names)-1], budgetBytes, int64(drained))
+			switch {
+			case ticks > bound/2:
+				e.Probe("work above 50% of the bound (" + string(names[len(names)-1]) + ")")
+			case ticks > bound/4:
+				e.Probe("work above 25% of the bound (" + string(names[len(names)-1]) + ")")
+			}
+			if ticks > bound {
+				e.Fail("work", map[string]string{"filter": string(names[len(names)-1])}, "%d work ticks for %d bytes of input and %d bytes of output (bound %d for a stream budget of %d): not proportional (dict %s)", ticks, in, drained, bound, budgetBytes, gen.Show(dict))
+			}
+		}
+		runtime.ReadMemStats(&ms1)
+		alloc := int64(ms1.TotalAlloc - ms0.TotalAlloc)
+		if bound := 3*budgetBytes + 16*int64(drained) + 32<<20; alloc > bound && !e.Failed() {
+			e.Fail("allocation", attrs, "TotalAlloc grew by %d bytes for a %d byte body (%d drained); bound %d (dict %s)", alloc, len(body), drained, bound, gen.Show(dict))
+		}
+	}()
 	if direct {
 		pd, _ := parms[0].(pdf.Dict)
 		var f pdf.Filter
@@ -450,8 +537,31 @@ func decodeAndCheck(e *core.Env, g *getter, dict pdf.Dict, body, globals []byte,
 	// Formats with intrinsic dimensions are different: a lone CCITTFax stream can
 	// never yield more than MaxImagePixels/8 bytes plus one row.
 	limit := 24 << 20
-	geometric := len(names) == 1 && names[0] == "CCITTFaxDecode"
-	drained := 0
+	// the filter that is really applied (the dictionary may have been tampered
+	// with after names was drawn)
+	lone := pdf.Name("")
+	if direct {
+		lone = names[0]
+	} else {
+		switch f := dict["Filter"].(type) {
+		case pdf.Name:
+			lone = f
+		case pdf.Array:
+			if len(f) == 1 {
+				lone, _ = f[0].(pdf.Name)
+			}
+		}
+	}
+	geometric := lone == "CCITTFaxDecode"
+	// DCT and JBIG2 carry their dimensions in the (possibly corrupted) body:
+	// an independent walk over the markers / the first segment gives the
+	// largest output the declared geometry allows
+	intrinsic := int64(-1)
+	if lone == "DCTDecode" {
+		intrinsic = jpegMaxOutput(body)
+	} else if lone == "JBIG2Decode" {
+		intrinsic = jbig2MaxOutput(body)
+	}
 	reads := 0
 	buf := make([]byte, 1<<16)
 	var rerr error
@@ -473,6 +583,10 @@ func decodeAndCheck(e *core.Env, g *getter, dict pdf.Dict, body, globals []byte,
 		}
 		if err != nil {
 			rerr = err
+			break
+		}
+		if intrinsic >= 0 && int64(drained) > intrinsic {
+			e.Fail("unbounded-output", map[string]string{"filter": string(lone)}, "%d bytes drained from a %d byte %s body whose declared geometry allows at most %d (dict %s)", drained, len(body), lone, intrinsic, gen.Show(dict))
 			break
 		}
 		if geometric && drained > 17<<20 {
@@ -498,32 +612,6 @@ func decodeAndCheck(e *core.Env, g *getter, dict pdf.Dict, body, globals []byte,
 		}
 	} else {
 		e.Probe("decoded to the end or closed")
-	}
-	// Simulated time: the instrumentation overlay counts one tick per function
-	// entry and loop iteration inside the decoder packages.  Stages before the
-	// last one must not expand (ASCIIHex, ASCII85), otherwise the last stage
-	// legitimately works on an intermediate stream that is neither the input
-	// nor the output.
-	if core.WorkActive() && workQualifies(names) {
-		ticks := core.WorkNow() - work0
-		in := int64(len(body) + len(globals))
-		e.Probe("work bound evaluated")
-		calib(ticks, in, int64(drained), budgetBytes, names, closeAt >= 0, drained > limit)
-		bound := workBound(names[len(names)-1], budgetBytes, int64(drained))
-		switch {
-		case ticks > bound/2:
-			e.Probe("work above 50% of the bound (" + string(names[len(names)-1]) + ")")
-		case ticks > bound/4:
-			e.Probe("work above 25% of the bound (" + string(names[len(names)-1]) + ")")
-		}
-		if ticks > bound {
-			e.Fail("work", map[string]string{"filter": string(names[len(names)-1])}, "%d work ticks for %d bytes of input and %d bytes of output (bound %d for a stream budget of %d): not proportional (dict %s)", ticks, in, drained, bound, budgetBytes, gen.Show(dict))
-		}
-	}
-	runtime.ReadMemStats(&ms1)
-	alloc := int64(ms1.TotalAlloc - ms0.TotalAlloc)
-	if bound := 3*budgetBytes + 16*int64(drained) + 32<<20; alloc > bound {
-		e.Fail("allocation", attrs, "TotalAlloc grew by %d bytes for a %d byte body (%d drained); bound %d (dict %s)", alloc, len(body), drained, bound, gen.Show(dict))
 	}
 }
 
@@ -691,6 +779,39 @@ func workBound(last pdf.Name, budget, out int64) int64 {
 	return k * (budget + out)
 }
 
+// effectiveNames returns the filter chain that the dictionary really asks for
+// (parameter tampering may have replaced /Filter after names was drawn).
+func effectiveNames(g *getter, dict pdf.Dict, drawn []pdf.Name, direct bool) ([]pdf.Name, bool) {
+	if direct {
+		return drawn[:1], true
+	}
+	res := func(o pdf.Object) pdf.Object {
+		for i := 0; i < 8; i++ {
+			ref, isRef := o.(pdf.Reference)
+			if !isRef {
+				return o
+			}
+			o = g.objs[ref]
+		}
+		return nil
+	}
+	switch f := res(dict["Filter"]).(type) {
+	case pdf.Name:
+		return []pdf.Name{f}, true
+	case pdf.Array:
+		var out []pdf.Name
+		for _, x := range f {
+			n, ok := res(x).(pdf.Name)
+			if !ok {
+				return nil, false
+			}
+			out = append(out, n)
+		}
+		return out, len(out) > 0
+	}
+	return nil, false
+}
+
 // workQualifies: stages before the last one must not expand.
 func workQualifies(names []pdf.Name) bool {
 	if len(names) == 0 {
@@ -718,4 +839,119 @@ func calib(ticks, in, out, budget int64, names []pdf.Name, closed, capped bool) 
 		fmt.Fprintf(f, "%s\tratio=%.1f\tticks=%d\tin=%d\tout=%d\tbudget=%d\tnames=%v\n", key, r, ticks, in, out, budget, names)
 		f.Close()
 	}
+}
+
+// jpegMaxOutput walks the marker segments of a JPEG up to the first frame
+// header and returns width*height*4 (no colour conversion produces more than
+// four bytes per pixel) plus one MCU row of slack; -1 if no frame header is
+// found where the syntax requires one.
+func jpegMaxOutput(b []byte) int64 {
+	if len(b) < 4 || b[0] != 0xff || b[1] != 0xd8 {
+		return -1
+	}
+	i := 2
+	for i+4 <= len(b) {
+		if b[i] != 0xff {
+			return -1
+		}
+		for i < len(b) && b[i] == 0xff {
+			i++ // fill bytes
+		}
+		if i >= len(b) {
+			return -1
+		}
+		m := b[i]
+		i++
+		if m == 0xd8 || m == 0x01 || m >= 0xd0 && m <= 0xd7 {
+			continue
+		}
+		if i+2 > len(b) {
+			return -1
+		}
+		n := int(b[i])<<8 | int(b[i+1])
+		if n < 2 || i+n > len(b) {
+			return -1
+		}
+		if m >= 0xc0 && m <= 0xcf && m != 0xc4 && m != 0xc8 && m != 0xcc {
+			if n < 8 {
+				return -1
+			}
+			h := int64(b[i+3])<<8 | int64(b[i+4])
+			w := int64(b[i+5])<<8 | int64(b[i+6])
+			if h == 0 {
+				return -1 // height defined later by DNL
+			}
+			return (w+64)*(h+64)*4 + 1<<16
+		}
+		if m == 0xda || m == 0xd9 {
+			return -1
+		}
+		i += n
+	}
+	return -1
+}
+
+// jbig2MaxOutput walks the segment headers of an embedded JBIG2 stream and
+// returns the size of the page bitmap declared by its only page information
+// segment; -1 if there is none or more than one, if the height is unknown, or
+// if the walk cannot follow the stream.
+func jbig2MaxOutput(b []byte) int64 {
+	out := int64(-1)
+	i := 0
+	for i < len(b) {
+		if i+6 > len(b) {
+			return -1
+		}
+		num := uint32(b[i])<<24 | uint32(b[i+1])<<16 | uint32(b[i+2])<<8 | uint32(b[i+3])
+		flags := b[i+4]
+		typ := flags & 0x3f
+		i += 5
+		cnt := int(b[i] >> 5)
+		i++
+		if cnt == 7 {
+			if i+3 > len(b) {
+				return -1
+			}
+			cnt = int(b[i-1]&0x1f)<<24 | int(b[i])<<16 | int(b[i+1])<<8 | int(b[i+2])
+			i += 3
+			if cnt > 1<<16 {
+				return -1
+			}
+			i += (cnt + 8) / 8
+		}
+		switch {
+		case num <= 256:
+			i += cnt
+		case num <= 65536:
+			i += 2 * cnt
+		default:
+			i += 4 * cnt
+		}
+		if flags&0x40 != 0 {
+			i += 4
+		} else {
+			i++
+		}
+		if i+4 > len(b) {
+			return -1
+		}
+		n := int64(b[i])<<24 | int64(b[i+1])<<16 | int64(b[i+2])<<8 | int64(b[i+3])
+		i += 4
+		if n == 0xffffffff || int64(i)+n > int64(len(b)) {
+			return -1
+		}
+		if typ == 48 {
+			if out >= 0 || n < 19 {
+				return -1
+			}
+			w := int64(b[i])<<24 | int64(b[i+1])<<16 | int64(b[i+2])<<8 | int64(b[i+3])
+			h := int64(b[i+4])<<24 | int64(b[i+5])<<16 | int64(b[i+6])<<8 | int64(b[i+7])
+			if h == 0xffffffff {
+				return -1
+			}
+			out = (w+7)/8*h + 1<<16
+		}
+		i += int(n)
+	}
+	return out
 }
